@@ -275,6 +275,17 @@ impl<'a> Tr<'a> {
             push_bind(lines, &format!("let {} ← ", Self::bind_pattern(None, &bound)), c.lines);
             return Ok(false);
         }
+        // `let p = s.as_ptr();` / `s.as_mut_ptr()`: remember what p points into
+        if let (Pat::Ident(pi), Expr::MethodCall(m)) = (pat, peel(&init.expr)) {
+            let mn = m.method.to_string();
+            if (mn == "as_ptr" || mn == "as_mut_ptr") && m.args.is_empty() {
+                let s = self.expr(&m.receiver, None)?;
+                if s.pre.is_empty() && !s.diverges {
+                    self.ptr_alias.insert(pi.ident.to_string(), (s.term, s.ty));
+                    return Ok(false);
+                }
+            }
+        }
         let o = self.expr(&init.expr, ann.as_ref())?;
         lines.extend(o.pre);
         if o.diverges {
@@ -434,6 +445,11 @@ impl<'a> Tr<'a> {
                 }
             }
             Expr::Index(ix) => {
+                if let Expr::Path(pp) = peel(&ix.expr) {
+                    if pp.path.segments.len() == 1 && self.mut_ref_params.contains(&pp.path.segments[0].ident.to_string()) {
+                        return self.err(place.span(), "write through a `&mut` parameter");
+                    }
+                }
                 let v = if monadic {
                     let t = self.fresh("t");
                     lines.push(format!("let {} ← {}", t, value));
@@ -560,7 +576,7 @@ impl<'a> Tr<'a> {
                 let parent_eps = self.cur_eps();
                 let vph = self.ph("lty", &[&vt]);
                 let eps = format!("(LoopExit {} Unit {})", parent_eps, vph);
-                self.frames.push(Frame { label: Some(l), state: Vec::new(), is_loop: false, val_ty: vt.clone(), valued: false, eps });
+                self.frames.push(Frame { label: Some(l), state: Vec::new(), is_loop: false, val_ty: vt.clone(), valued: false, breaks: 0, eps });
                 let r = self.block_lines(&b.stmts, outs, want_value, Some(&vt));
                 let fr = self.frames.pop().unwrap();
                 let (bl, ty, div) = r?;
@@ -606,7 +622,7 @@ impl<'a> Tr<'a> {
         let loop_name = format!("{}.loop{}", self.lean_name, self.loop_count);
         // captured variables: in-scope variables mentioned in the loop that are not loop state
         let captured = self.captured_vars(&kind, state);
-        self.frames.push(Frame { label, state: state.to_vec(), is_loop: true, val_ty: val_ty.clone(), valued: false, eps: eps.clone() });
+        self.frames.push(Frame { label, state: state.to_vec(), is_loop: true, val_ty: val_ty.clone(), valued: false, breaks: 0, eps: eps.clone() });
         let fuel_before = self.fuel_uses;
         let body_res: R<Vec<String>> = (|| {
             match kind {
@@ -636,6 +652,9 @@ impl<'a> Tr<'a> {
                         ls.push(format!("if {} then do", c.term));
                         ls.extend(ind(bl, 4));
                         ls.push(format!("else Ctl.exit (.brk {})", st));
+                        if let Some(f) = self.frames.last_mut() {
+                            f.breaks += 1;
+                        }
                         Ok(ls)
                     }
                 }
@@ -644,7 +663,8 @@ impl<'a> Tr<'a> {
         let body_uses_fuel = self.fuel_uses > fuel_before;
         let fr = self.frames.pop().unwrap();
         let body = body_res?;
-        let beta = if fr.valued { format!("({} × {})", sigma, self.ph("lty", &[&val_ty])) } else { sigma.clone() };
+        let never = fr.breaks == 0;
+        let beta = if never { "Empty".to_string() } else if fr.valued { format!("({} × {})", sigma, self.ph("lty", &[&val_ty])) } else { sigma.clone() };
         self.betas[beta_id] = beta.clone();
         let binder = match state.len() {
             0 => "(_ : Unit)".to_string(),
@@ -681,6 +701,16 @@ impl<'a> Tr<'a> {
         self.hoisted.push(def);
         self.fuel_uses += 1;
         let lines = vec![format!("(Rs.loop fuel ({}{}) {})", loop_name, args, st)];
+        if never {
+            // a loop that is only left by `return` (or an outer break): the term itself diverges
+            let nv = self.fresh("never");
+            let mut out_lines = vec!["(do".to_string()];
+            let mut inner = Vec::new();
+            push_bind(&mut inner, &format!("let {} ← ", nv), lines);
+            inner.push(format!("nomatch {})", nv));
+            out_lines.extend(ind(inner, 4));
+            return Ok(Comp { pre: vec![], lines: out_lines, ty: Ty::Never, div: true });
+        }
         // result of the loop term: β.  Re-shape into (value?, outs…)
         let ty = if fr.valued { val_ty } else { Ty::Unit };
         let need_reshape = fr.valued || want_value || outs != state;
